@@ -335,6 +335,9 @@ def makeMachine() -> Callable[[_Core], _Client]:
     @pep614(Init.upon(_Client.stop).to(Stopped))
     @pep614(Stopped.upon(_Client.stop).to(Stopped))
     def immediateStop(c: _Client, s: _Core) -> Deferred[None]:
+        # whenConnected() may have been called before the service was ever
+        # started; those Deferreds are told about the stop like any other.
+        s.cancelConnectWaiters()
         return succeed(None)
 
     @pep614(Connecting.upon(_Client.stop).to(Disconnecting))
